@@ -438,6 +438,40 @@ def search_C14(pid, budget):
         data = synth(pat, B)
         kw = dict(min_dur=0.02, max_dur=0.05, max_silence=0.01)
         import threading
+        # a source that starts failing (device unplugged) and a stop requested afterwards: everything still terminates
+        n += 1
+        threading.excepthook = lambda *a, **k: None      # the tokenizer thread may end on the source's error: expected
+
+        class Failing:
+            def __init__(self, r):
+                self.r, self.k = r, 0
+
+            def __getattr__(self, a):
+                return getattr(self.r, a)
+
+            def read(self):
+                self.k += 1
+                if self.k > 5:
+                    raise OSError("device unplugged")
+                return self.r.read()
+        fo = []
+
+        class FObs(Worker):
+            def __init__(self):
+                super().__init__(timeout=0.05)
+
+            def _process_message(self, m):
+                fo.append(m[0])
+        fobs = FObs()
+        twf = TokenizerWorker(Failing(AudioReader(synth("aAAa" * 30, 10), block_dur=0.01, sr=1000, sw=2, ch=1)), [fobs], **kw)
+        twf.start_all()
+        time.sleep(0.3)
+        donef = threading.Event()
+        threading.Thread(target=lambda: (twf.stop_all(), donef.set()), daemon=True).start()
+        if not donef.wait(4) or twf.is_alive():
+            fail(pid, "stop_all", "the source fails with OSError from its 6th read on, a stop is requested 0.3 s later: after 4 s stop_all() has %s, "
+                 "tokenizer thread alive: %r, observer alive: %r" % ("returned" if donef.is_set() else "NOT returned", twf.is_alive(), fobs.is_alive()))
+        fobs.join(2)
         # a stop while an observer slower than the tokenizer still has detections queued (real threads, real queues):
         # every detection the tokenizer made is processed by the observer before it ends -- none is lost behind the marker
         n += 1
